@@ -173,3 +173,18 @@ func init() {
 		Rules:       []*Rule{ruleBuiltinSig, ruleNaNGuard, f2iRule("pkg/evaluator", 4), ruleErrProto, runesRule("pkg/evaluator", "stringVal", 4)},
 	})
 }
+
+func init() {
+	Register(&Property{
+		ID: "C18",
+		Explanation: "Decides the whole mechanism of `evy fmt -w`/`-c` structurally (R-ATOMICWRITE W1–W7): over the call graph rooted at the fmt command " +
+			"only the temp-file primitives touch files; the temp file is created in the target's directory, written, given the target's permission " +
+			"bits, closed and renamed in this order with every error tested and no failing edge reaching the rename; the writer runs only after a " +
+			"successful format under -w with the formatter's output; --check compares the input with the formatter's own output and fails exactly on " +
+			"the unequal edge; an error for one file ends the command with that error. Given these, at every system-call boundary the target is " +
+			"either untouched or atomically replaced by a complete temp file.",
+		NotDecided:  "File-system semantics of rename(2), leftover temp files after a crash, umask effects inside os.CreateTemp.",
+		Assumptions: []string{"os.Rename within one directory is atomic"},
+		Rules:       []*Rule{ruleAtomicWrite},
+	})
+}
